@@ -141,67 +141,45 @@ theorem tracks_updateOne (ρ0 ρ ρ' : Val) (s : RegState) (e : Txt × Option Ch
     subst hs
     have hother : ∀ q, q ≠ reg → ρ.set reg (ρ ch.name + ch.value) q = ρ q :=
       fun q hq => Val.set_other ρ reg _ q hq
-    have hreg := h reg
-    cases hcur : lookup s reg with
-    | some cur =>
-      cases cur with
+    by_cases hn : ch.name = reg
+    · have : (ch.name != reg) = false := by simp [hn]
+      simp only [updateOne, this, Bool.false_eq_true, if_false]
+      have hreg := h reg
+      cases hcur : lookup s reg with
       | none =>
-        simp only [updateOne, hcur]
-        exact tracks_setReg ρ0 ρ _ s reg none h hother trivial
-      | some c =>
         simp only [hcur] at hreg
-        by_cases hn : ch.name = reg
-        · have : (ch.name != reg) = false := by simp [hn]
-          simp only [updateOne, hcur, this, Bool.false_eq_true, if_false]
-          refine tracks_setReg ρ0 ρ _ s reg _ h hother ?_
-          simp only [Val.set_self, hn, hreg]
-          omega
-        · have : (ch.name != reg) = true := by simp [hn]
-          simp only [updateOne, hcur, this, if_true]
-          have hsrc := h ch.name
-          cases hl : lookup s ch.name with
-          | none =>
-            simp only [hl] at hsrc
-            simp only
-            refine tracks_setReg ρ0 ρ _ s reg _ h hother ?_
-            simp only [Val.set_self, hsrc]
-            omega
-          | some o =>
-            cases o with
-            | none => exact tracks_setReg ρ0 ρ _ s reg none h hother trivial
-            | some src =>
-              simp only [hl] at hsrc
-              simp only
-              refine tracks_setReg ρ0 ρ _ s reg _ h hother ?_
-              simp only [Val.set_self, hsrc]
-              omega
-    | none =>
-      simp only [hcur] at hreg
-      by_cases hn : ch.name = reg
-      · have : (ch.name != reg) = false := by simp [hn]
-        simp only [updateOne, hcur, this, Bool.false_eq_true, if_false]
+        simp only
         refine tracks_setReg ρ0 ρ _ s reg _ h hother ?_
         simp only [Val.set_self, hn, hreg]
         omega
-      · have : (ch.name != reg) = true := by simp [hn]
-        simp only [updateOne, hcur, this, if_true]
-        have hsrc := h ch.name
-        cases hl : lookup s ch.name with
-        | none =>
+      | some o =>
+        cases o with
+        | none => exact tracks_setReg ρ0 ρ _ s reg none h hother trivial
+        | some c =>
+          simp only [hcur] at hreg
+          simp only
+          refine tracks_setReg ρ0 ρ _ s reg _ h hother ?_
+          simp only [Val.set_self, hn, hreg]
+          omega
+    · have : (ch.name != reg) = true := by simp [hn]
+      simp only [updateOne, this, if_true]
+      have hsrc := h ch.name
+      cases hl : lookup s ch.name with
+      | none =>
+        simp only [hl] at hsrc
+        simp only
+        refine tracks_setReg ρ0 ρ _ s reg _ h hother ?_
+        simp only [Val.set_self, hsrc]
+        omega
+      | some o =>
+        cases o with
+        | none => exact tracks_setReg ρ0 ρ _ s reg none h hother trivial
+        | some src =>
           simp only [hl] at hsrc
           simp only
           refine tracks_setReg ρ0 ρ _ s reg _ h hother ?_
           simp only [Val.set_self, hsrc]
           omega
-        | some o =>
-          cases o with
-          | none => exact tracks_setReg ρ0 ρ _ s reg none h hother trivial
-          | some src =>
-            simp only [hl] at hsrc
-            simp only
-            refine tracks_setReg ρ0 ρ _ s reg _ h hother ?_
-            simp only [Val.set_self, hsrc]
-            omega
 
 /-- **`updateState` preserves `Tracks` along any execution** of the reported changes -/
 theorem tracks_updateState (ρ0 ρ ρ' : Val) (s : RegState) (ch : List (Txt × Option Change))
